@@ -241,7 +241,13 @@ def ref(p):
                     break
                 bad = [o for o in chunk if o[0] == 'err']
                 outs.append(bad[0] if bad else ('ok', [o[1] for o in chunk]))
-            return Ref(outs=outs, indexable=r.indexable, haslen=r.haslen, ordered=r.ordered)
+            # iteration walks the whole input (also a tail that is dropped), indexing does not
+            vals, err = r.stream
+            chunks = [vals[s:s + n] for s in range(0, len(vals), n)]
+            if chunks and len(chunks[-1]) < n and (p['dropLast'] or err is not None):
+                chunks.pop()
+            return Ref(outs=outs, stream=(chunks, err), indexable=r.indexable, haslen=r.haslen,
+                       ordered=r.ordered)
         vals, err = r.stream
         chunks = [vals[s:s + n] for s in range(0, len(vals), n)]
         if chunks and len(chunks[-1]) < n and (p['dropLast'] or err is not None):
@@ -260,7 +266,7 @@ def ref(p):
     if op == 'items':
         if r.keys is None:
             raise RefUndefined('items without keys')
-        if r.outs is not None:
+        if r.outs is not None and r.keys_api:
             outs = [(o if o[0] == 'err' else ('ok', (k, o[1]))) for k, o in zip(r.keys, r.outs)]
             return Ref(outs=outs, keys=r.keys, keys_api=r.keys_api, indexable=r.indexable,
                        haslen=r.haslen, ordered=r.ordered)
